@@ -204,6 +204,14 @@ def giant_cases(draw, ops, tbin_ops=(), lengths='any', max_width=1100):
         f = ('un', 'not', f)
     elif k == 2 and f[0] == 'tun':
         f = ('bin', draw(st.sampled_from(['and', 'or', 'implies'])), f, ('tun', dual[op], a, b, ('un', 'not', g)))
+    elif k == 4 and f[0] == 'tun':
+        # a second operator of the same kind with another wide window over the other variable
+        w2 = draw(st.sampled_from([w for w in GIANT_WIDTHS if w <= max_width and w != width][:8]))
+        a2 = draw(st.sampled_from([0, 0, 1, 17]))
+        y = ('var', [v for v in vs if v != x[1]][0])
+        g2 = draw(st.sampled_from([y, ('pred', '>=', y, ('const', 1.0)), ('un', 'abs', y)]))
+        f = ('bin', draw(st.sampled_from(['and', 'or', 'implies'])), f, ('tun', op, a2, a2 + w2, g2))
+        reach = max(b, a2 + w2)
     elif k == 3 and f[0] == 'tun':
         # a narrow operator of the same direction above the wide one
         c = draw(st.integers(0, 3))
